@@ -31,6 +31,9 @@ def main():
             r = sh(f"git -C /repo show {what} -- pkg | git -C /repo apply -R")
         else:
             r = sh(f"git -C /repo apply {os.path.abspath(what)}")
+            if r.returncode != 0:
+                # the patch was made against an earlier commit of /repo: try a three-way merge, keep the index clean
+                r = sh(f"git -C /repo apply -3 {os.path.abspath(what)} && git -C /repo reset -q")
         if r.returncode != 0:
             print("cannot apply:", r.stdout); return 2
         b = sh("cd /repo && go build ./... && go test -vet=off -count=1 ./... 2>&1 | tail -4")
@@ -52,7 +55,7 @@ def main():
                     break
             print(f"{pid} rc={p.returncode} {time.time()-t0:.0f}s {lines[0] if lines else ''} {detail}")
     finally:
-        sh("git -C /repo checkout -- .")
+        sh("git -C /repo reset -q; git -C /repo checkout -- .")
         left = sh("git -C /repo status --porcelain --untracked-files=no").stdout.strip()
         if left:
             print("WARNING: /repo not clean after restore:", left)
